@@ -405,6 +405,13 @@ XPROGS = [
          ref_body="a = np.exp(x)\nout = np.power(a, p) * np.power(a, p * 1.0) + p", smooth_at_ties=True, seed="none"),
     dict(name="pow-vector-exponent", leaves=[["x", [2]], ["p", [2]]], body="out = (mg.exp(x) ** p) * p",
          ref_body="out = np.power(np.exp(x), p) * p", smooth_at_ties=True, seed="none"),
+    # an intermediate tensor passed to one op together with its own data array (a constant that happens to be the same ndarray object)
+    dict(name="einsum-tensor-and-own-data", leaves=[["x", [2, 2]], ["w", [2, 2]]], carrs=[["c", [2, 2]]],
+         body="h = (x + w) * w\nout = mg.einsum('ij,ij->i', h, h.data)", assume="eq(c, (x.data + w.data) * w.data)",
+         ref_body="out = ((x + w) * w * c).sum(axis=1)", smooth_at_ties=True, seed="none"),
+    dict(name="product-tensor-and-own-data", leaves=[["x", [2]], ["w", [2]]], carrs=[["c", [2]]],
+         body="h = x * w\nout = mg.multiply_sequence(h, h.data, x)", assume="eq(c, x.data * w.data)",
+         ref_body="out = x * w * c * x", smooth_at_ties=True, seed="none"),
     dict(name="pow-0d-base-0d-exponent", leaves=[["x", []], ["p", []], ["y", [2]]], body="out = (mg.exp(x) ** p) * y",
          ref_body="out = np.power(np.exp(x), p) * y", smooth_at_ties=True, seed="none"),
 ]
